@@ -3,6 +3,7 @@
 use kvc::util::Opts;
 mod sx;
 mod c12;
+mod c21;
 
 fn main() {
     let args: Vec<String> = std::env::args().collect();
@@ -13,6 +14,7 @@ fn main() {
     let opts = Opts::parse(&args[2..]);
     let rc = match args[1].as_str() {
         "c12" => c12::run(&opts),
+        "c21" => c21::run(&opts),
         other => {
             eprintln!("unknown subcommand {other}");
             2
